@@ -177,7 +177,10 @@ def bam_case(args):
             same_name = (sum(assign) + len(order)) % 2 == 0
             os.makedirs(os.path.join(d, "lane%d" % fi), exist_ok=True)
             p = os.path.join(d, "lane%d" % fi, "reads.bam" if same_name else "part%d.bam" % fi)
-            syn.write_bam(w, p, reads=files[fi], seqs=seqs)
+            # part files of different origin need not list the reference sequences in the same order: the last file of every partition
+            # with differently named parts has its @SQ lines reversed (and is sorted accordingly)
+            wf = w if (same_name or fi != order[-1]) else dict(w, chroms=dict(reversed(list(w["chroms"].items()))))
+            syn.write_bam(wf, p, reads=files[fi], seqs=seqs)
             bams.append(p)
         out = os.path.join(d, "out")
         shutil.rmtree(out, ignore_errors=True)
